@@ -1069,4 +1069,8 @@ class StructuredTypeUnmarshaller(AbstractUnmarshaller[_ST]):
         decoded = serdes.load(val)
         fields = self.fields_by_var
         kwargs = {f: fields[f](v) for f, v in serdes.iteritems(decoded) if f in fields}
+        # A TypedDict is a plain `dict` at runtime: nothing else enforces its required keys.
+        missing = getattr(self.t, "__required_keys__", frozenset()) - kwargs.keys()
+        if missing:
+            raise TypeError(f"{self.t!r} is missing required keys: {sorted(missing)}")
         return self.t(**kwargs)
